@@ -5,7 +5,9 @@
    shape = [kind, lambda, first, closure, global, nested, defaults, decorated, kwargs]
      kind      "string" | "function" | "module"
      lambda    the function is a lambda
-     first     "channel" | "other" | "none"          name of the first parameter
+     first     "channel" | "other" | "none" | "kwonly_channel" (channel is keyword-only) | "star_channel" (a var-positional
+               parameter named channel) | "starstar_channel" (a var-keyword parameter named channel): the first positional
+               parameter must be `channel`
      closure   the function closes over a variable of an enclosing function
      global    the function body refers to a non-builtin global name
      nested    the function is defined inside another function / class (indented source)
@@ -33,13 +35,13 @@ Decide(s) ==
 \* parameter are rejected locally; everything else that is serialisable runs
 Rejected(s) == s.kind = "function" /\ (s.lambda \/ s.first # "channel" \/ s.closure \/ s.global \/ s.decorated \/ s.shadow)
 
-Shapes == { s \in [kind : {"string", "function", "module"}, lambda : BOOLEAN, first : {"channel", "other", "none"}, closure : BOOLEAN,
+Shapes == { s \in [kind : {"string", "function", "module"}, lambda : BOOLEAN, first : {"channel", "other", "none", "kwonly_channel", "star_channel", "starstar_channel"}, closure : BOOLEAN,
                    global : BOOLEAN, nested : BOOLEAN, defaults : BOOLEAN, decorated : BOOLEAN, shadow : BOOLEAN, kwargs : {"none", "good", "bad"}] :
             /\ (s.kind # "function" => (~s.lambda /\ s.first = "channel" /\ ~s.closure /\ ~s.global /\ ~s.nested /\ ~s.defaults /\ ~s.decorated /\ ~s.shadow))
             /\ (s.closure => s.nested)
             /\ (s.lambda => (~s.defaults /\ ~s.decorated /\ ~s.global /\ ~s.shadow))
             /\ (s.shadow => (~s.global /\ s.first = "channel"))
-            /\ (s.first = "none" => ~s.defaults) }
+            /\ (s.first \in {"none", "kwonly_channel", "star_channel", "starstar_channel"} => (~s.defaults /\ s.kwargs = "none" /\ ~s.lambda)) }
 
 VARIABLES shape, phase, frames, outcome
 vars == <<shape, phase, frames, outcome>>
